@@ -115,6 +115,11 @@ def analyse_function(name, entry, insns, labels_by_addr=None):
                 src = _k(s) or _g(s)
                 if tgt and src:
                     val = masks.get(src, frozenset([('in', src)]))
+                    if _k(d) and _g(s):
+                        # a mask loaded from a general register keeps only as many bits as the move is wide
+                        w_ = {'b': 8, 'w': 16, 'd': 32, 'q': 64}[mn[-1]]
+                        val = frozenset([('in%d' % w_, src)]) if src not in masks or any(t[0] in ('in', 'def') for t in masks[src]
+                                                                                       if isinstance(t, tuple)) else val
                 elif tgt:
                     val = frozenset([('mem',)])
             elif re.match(r'^kor[bwdq]$', mn) and len(ops) == 3:
@@ -293,6 +298,11 @@ def verdicts(facts):
                 decided += 1
                 continue
             decided += 1
+            narrow = [w for w in same_bit if c['bit'] >= 8 and any("'in8'" in t for t in w['mask'])]
+            if narrow:
+                bad.append((c, 'the wipe at +%#x ORs in a lane mask that was moved into its opmask register with `kmovb` (8 bits) although lanes '
+                               'up to %d are selected by it' % (narrow[0]['a'], max(w['bit'] for w in wipes))))
+                continue
             if _known(c['mask']) and not any(_shapes(c['mask']) <= _shapes(w['mask']) for w in same_bit):
                 w = same_bit[0]
                 bad.append((c, 'the wipe at +%#x selects lanes by a mask built from %s, which does not contain the copy mask %s' % (
@@ -303,7 +313,7 @@ def verdicts(facts):
 def all_units():
     """{asm source: facts} for every unit, cached per NASM source key"""
     from . import insnscan
-    return insnscan._cached('maskcover2', scan_obj, procs=True)
+    return insnscan._cached('maskcover3', scan_obj, procs=True)
 
 
 if __name__ == '__main__':
